@@ -116,6 +116,29 @@ def audit(mod, thms):
     return ok, problems, axioms
 
 
+def local_closure(mod, seen):
+    p = os.path.join(common.LEAN_DIR, mod.replace('.', '/') + '.lean')
+    if mod in seen or not os.path.exists(p):
+        return seen
+    seen.add(mod)
+    for m in re.findall(r'^import\s+(PGM\.[\w.]+)', open(p).read(), re.M):
+        local_closure(m, seen)
+    return seen
+
+
+def leanchecker(lean_mod):
+    import time
+    mods = sorted(local_closure(lean_mod, set()))
+    t0 = time.time()
+    try:
+        with common.LeanLock():
+            r = subprocess.run(['lake', 'env', 'leanchecker'] + mods, cwd=common.LEAN_DIR, capture_output=True, text=True, timeout=3000)
+    except FileNotFoundError:
+        return {'ok': True, 'modules': len(mods), 'skipped': 'leanchecker not on PATH'}
+    ok = r.returncode == 0
+    return {'ok': ok, 'modules': len(mods), 'seconds': round(time.time() - t0, 1), 'detail': (r.stdout + r.stderr)[-800:] if not ok else ''}
+
+
 def main():
     ap = argparse.ArgumentParser()
     ap.add_argument('pid')
@@ -157,6 +180,12 @@ def main():
             res.extra['axioms'] = {t: axioms.get(t) for t in thms}
             for p in problems:
                 broken.append({'theorem': p, 'stage': 'audit', 'detail': p})
+        # 3b. thorough tier: the toolchain's independent re-checker replays every compiled module the property depends on
+        if tier == 'thorough' and not args.replay and not any(b['stage'] == 'build' for b in broken):
+            lc = leanchecker(lean_mod)
+            res.extra['leanchecker'] = lc
+            if not lc['ok']:
+                broken.append({'theorem': None, 'stage': 'leanchecker', 'detail': lc['detail']})
         driver_ok = os.path.exists(exe_path) and not any(b['stage'] in ('build', 'translate') for b in broken)
         drv = common.Driver(exe_path) if driver_ok else None
         # 4. correspondence (or replay)
@@ -186,7 +215,10 @@ def main():
     nviol = 0
     printed_known = set()
     found_failing = any(v['kind'] == 'failing-input' for v in res.violations)
-    for v in res.violations:
+    is_known = lambda v: any(v.get('key') and k['key'] == v['key'] for k in kn)
+    # a concrete failing input that is not a listed finding: correspondence / obligation reports then do not claim that none was found
+    new_failing = any(v['kind'] == 'failing-input' and not is_known(v) for v in res.violations)
+    for v in sorted(res.violations, key=lambda v: 0 if v['kind'] == 'failing-input' else 1):
         match = next((k for k in kn if v.get('key') and k['key'] == v['key']), None)
         if match:
             if match['key'] not in printed_known:
@@ -195,7 +227,7 @@ def main():
             continue
         nviol += 1
         path = common.write_replay(pid, v, seed)
-        tail = '' if v['kind'] == 'failing-input' else ' no-failing-input-found'
+        tail = '' if (v['kind'] == 'failing-input' or new_failing) else ' no-failing-input-found'
         print(f"VIOLATION property={pid} replay={path}{tail}")
         print(f"  {v['kind']}: {v['what']}")
         exit_code = 1
